@@ -153,6 +153,7 @@ PROPS = {
                 title="storage failures surface as errors"),
     "C13": dict(kind="multi", quick_n=400, thorough_n=4000, title="on-disk format, total decoders",
                 parts=[dict(gen="codec", mode="codec", frac=1.0),
+                       dict(gen="encodedb", mode="exec", frac=0.5),
                        dict(gen="profile", mode="exec", frac=0.6,
                             profile=Profile(dump=1.0, p_prune=0.3, p_noop_version=0.3, p_loadow=0.1, p_reopen=0.2,
                                             check_all_versions=0.05, p_hash_read=0.2, reads_per_version=(0, 1),
@@ -363,6 +364,8 @@ def run_check(prop, tier, seed, n_override=None):
                 k = max(1, int(n * part["frac"]))
                 if part["gen"] == "codec":
                     hs = v1gen.gen_codec(seed, k)
+                elif part["gen"] == "encodedb":
+                    hs = v1gen.gen_encodedb(seed, k)
                 else:
                     hs = v1gen.generate(seed, k, part["profile"])
                 groups.append((part["mode"], hs))
